@@ -338,7 +338,7 @@ class _Analysis:
         self.s.params = names
         is_static = any(ast.unparse(d) == "staticmethod" for d in self.fn.decorator_list)
         for d in self.fn.decorator_list:
-            if "lru_cache" in ast.unparse(d) or ast.unparse(d).endswith("cache"):
+            if "lru_cache" in ast.unparse(d) or ast.unparse(d).split("(")[0].split(".")[-1] in ("cache", "cached_property"):
                 self.s.caches.append(ast.unparse(d))
         for i, n in enumerate(names):
             v = P(n)
@@ -391,7 +391,7 @@ class _Analysis:
         elif isinstance(st, ast.Delete):
             for t in st.targets:
                 if isinstance(t, (ast.Subscript, ast.Attribute)):
-                    self.mutation(self.expr(t.value), st, "del")
+                    self.mutation(self.expr(t.value), st, "del", path=self._path(t.value))
         elif isinstance(st, ast.Expr):
             self.expr(st.value)
         elif isinstance(st, ast.Return):
@@ -439,7 +439,21 @@ class _Analysis:
             for ch in ast.iter_child_nodes(st):
                 if isinstance(ch, ast.expr):
                     self.expr(ch)
-        elif isinstance(st, (ast.FunctionDef, ast.ClassDef)):
+        elif isinstance(st, ast.FunctionDef):
+            self.env[st.name] = FRESH
+            # the body of a nested function runs with the enclosing environment: writes through captured parameters or to
+            # module state are effects of the enclosing function (conservative: as if the nested function were called)
+            saved_ret, saved_env = self.ret, dict(self.env)
+            a = st.args
+            for x in a.posonlyargs + a.args + a.kwonlyargs + ([a.vararg] if a.vararg else []) + ([a.kwarg] if a.kwarg else []):
+                self.env[x.arg] = UNK
+            for d in st.decorator_list:
+                if "lru_cache" in ast.unparse(d) or ast.unparse(d).split("(")[0].split(".")[-1] in ("cache", "cached_property"):
+                    self.s.caches.append(f"{st.name}: {ast.unparse(d)}")
+            self.block(st.body)
+            self.ret, self.env = saved_ret, saved_env
+            self.env[st.name] = FRESH
+        elif isinstance(st, ast.ClassDef):
             self.env[st.name] = FRESH
         # pass / import / global / nonlocal: nothing
 
@@ -460,11 +474,11 @@ class _Analysis:
             for e in t.elts:
                 self.assign(e.value if isinstance(e, ast.Starred) else e, ev if not isinstance(e, ast.Starred) else Val(frozenset({F}), v.inner, None, v.deep), st)
         elif isinstance(t, ast.Attribute):
-            self.mutation(self.expr(t.value), st, f"attribute assignment .{t.attr}", attr=t.attr)
+            self.mutation(self.expr(t.value), st, f"attribute assignment .{t.attr}", attr=t.attr, path=self._path(t.value))
             self.absorb(t.value, v)
         elif isinstance(t, ast.Subscript):
             self.expr(t.slice)
-            self.mutation(self.expr(t.value), st, "item assignment")
+            self.mutation(self.expr(t.value), st, "item assignment", path=self._path(t.value))
             self.absorb(t.value, v)
 
     def absorb(self, container_expr, stored: Val):
@@ -479,12 +493,31 @@ class _Analysis:
             deep = cur_.deep | _noimm(stored.inner | stored.deep) | (frozenset() if direct else _noimm(stored.top))
             self.env[root.id] = Val(cur_.top, inner, cur_.cls, deep)
 
-    def mutation(self, target: Val, node, why, attr=None):
+    @staticmethod
+    def _path(e) -> Optional[str]:
+        """access path of an expression rooted at a name, without subscripts: self.raw_data[k].x -> self.raw_data.x"""
+        parts = []
+        while True:
+            if isinstance(e, ast.Attribute):
+                parts.append(e.attr)
+                e = e.value
+            elif isinstance(e, ast.Subscript):
+                e = e.value
+            elif isinstance(e, ast.Name):
+                parts.append(e.id)
+                return ".".join(reversed(parts))
+            else:
+                return None
+
+    def mutation(self, target: Val, node, why, attr=None, path=None, suffix=""):
         text = ast.unparse(node)[:160]
         done = False
         for tag in target.top:
             if isinstance(tag, tuple):
-                self.s.mutates.setdefault(tag[1], []).append(Finding("param-write", self.where(node), f"{why}: {text}", tag[1] + (f".{attr}" if attr and tag[2] == 0 else "")))
+                tgt = tag[1] + (f".{attr}" if attr and tag[2] == 0 else "")
+                if path and path.split(".")[0] == tag[1]:
+                    tgt = path + (f".{attr}" if attr else "") + suffix
+                self.s.mutates.setdefault(tag[1], []).append(Finding("param-write", self.where(node), f"{why}: {text}", tgt))
                 done = True
             elif tag == G:
                 self.s.global_writes.append(Finding("global-write", self.where(node), f"{why}: {text}", "module state"))
@@ -652,7 +685,7 @@ class _Analysis:
                 for b in self.repo.class_bases.get(self.cls or "", []):
                     key = key or self.repo.method(b, f.attr)
                 if key:
-                    return self.apply(key, [self.env.get("self", UNK)] + args, kws, e)
+                    return self.apply(key, [self.env.get("self", UNK)] + args, kws, e, arg_exprs=[ast.Name(id="self", ctx=ast.Load())] + list(e.args))
                 return IMM
             recv = self.expr(f.value)
             if f.attr == "__setattr__" and isinstance(f.value, ast.Name) and f.value.id == "object" and args:
@@ -660,7 +693,7 @@ class _Analysis:
                 return IMM
             if f.attr in MUTATORS:
                 if not (recv.top <= {I}):
-                    self.mutation(recv, e, f"call of mutating method .{f.attr}()")
+                    self.mutation(recv, e, f"call of mutating method .{f.attr}()", path=self._path(f.value))
                 for a_ in allv:
                     self.absorb(f.value, a_)
                 return recv.elem()
@@ -673,7 +706,7 @@ class _Analysis:
             if not keys and f.attr not in PURE_METHODS:
                 keys = [k for k in self.repo.by_name.get(f.attr, []) if "." in k.split(":")[1]]
             if keys:
-                outs = [self.apply(k, [recv] + args, kws, e, may=len(keys) > 1) for k in keys]
+                outs = [self.apply(k, [recv] + args, kws, e, may=len(keys) > 1, arg_exprs=[f.value] + list(e.args)) for k in keys]
                 v = outs[0]
                 for o in outs[1:]:
                     v = v | o
@@ -714,7 +747,7 @@ class _Analysis:
             if r and r.startswith("class:"):
                 return self.construct(r[6:], args, kws, e)
             if r:
-                return self.apply(r, args, kws, e)
+                return self.apply(r, args, kws, e, arg_exprs=list(e.args))
             if n in SCALAR_BUILTINS:
                 return IMM
             if n and n[0].isupper():
@@ -724,14 +757,21 @@ class _Analysis:
         self.expr(f)
         return fresh_with(reach)
 
-    def apply(self, key, args: List[Val], kws: Dict[str, Val], node, may=False) -> Val:
+    def apply(self, key, args: List[Val], kws: Dict[str, Val], node, may=False, arg_exprs=None) -> Val:
         s = self.repo.summary(key)
         fn = self.repo.funcs.get(key)
         binding: Dict[str, Val] = {}
-        for p, a in zip(s.params, args):
+        paths: Dict[str, Optional[str]] = {}
+        for i, (p, a) in enumerate(zip(s.params, args)):
             binding[p] = a
+            if arg_exprs is not None and i < len(arg_exprs) and not isinstance(arg_exprs[i], ast.Starred):
+                paths[p] = self._path(arg_exprs[i])
         for k, v in kws.items():
             binding[k] = v
+        if isinstance(node, ast.Call):
+            for k in node.keywords:
+                if k.arg:
+                    paths[k.arg] = self._path(k.value)
         for p, finds in s.mutates.items():
             a = binding.get(p)
             if a is None:
@@ -743,7 +783,8 @@ class _Analysis:
                 if any(isinstance(t, tuple) or t == G for t in a.top):
                     self.s.unknown.append(Finding("unknown-write", self.where(node), f"call {ast.unparse(node)[:100]} may resolve to {key} which mutates {p}", "?"))
                 continue
-            self.mutation(a, node, f"call of {key.split(':')[1]} which mutates its argument '{p}' ({finds[0].what[:80]})")
+            for sfx in sorted({(f_.target[len(p):] if f_.target.startswith(p) else "") for f_ in finds}):
+                self.mutation(a, node, f"call of {key.split(':')[1]} which mutates its argument '{p}' ({finds[0].what[:80]})", path=paths.get(p), suffix=sfx)
         for gfind in s.global_writes:
             self.s.global_writes.append(Finding("global-write", self.where(node), f"via {key.split(':')[1]}: {gfind.what[:120]}", gfind.target))
         ret = _subst(s.returns, binding)
@@ -815,3 +856,73 @@ def frame_outcome(key: str, allow_self_attrs: Tuple[str, ...] = (), ignore_param
     if s.unknown:
         return "undecided", s.unknown, s
     return "discharged", [], s
+
+
+# ------------------------------------------------------------------------------------------------
+# write profiles: the frame (modifies clause) of EVERY function of a module, pinned in contracts/frames.json
+
+def write_profile(mod: str) -> Dict[str, Dict[str, List[str]]]:
+    """qualname -> {"writes": sorted targets the function may write (parameters / self attributes / module state, directly or through
+    repository callees), "memo": memoisation decorators}; plus "<module>" -> module-level memoised callables"""
+    r = repo()
+    out: Dict[str, Dict[str, List[str]]] = {}
+    for key in sorted(r.funcs):
+        m, q = key.split(":")
+        if m != mod:
+            continue
+        s = r.summary(key)
+        w = set()
+        for p, finds in s.mutates.items():
+            for f in finds:
+                w.add("param:" + f.target)
+        for f in s.global_writes:
+            w.add("global:" + f.target)
+        out[q] = {"writes": sorted(w), "memo": sorted(set(s.caches))}
+    tree = r.mods.get(mod)
+    memo = []
+    if tree is not None:
+        for node in tree.body:
+            if isinstance(node, (ast.Assign, ast.AnnAssign)) and node.value is not None:
+                txt = ast.unparse(node.value)
+                if isinstance(node.value, ast.Call) and ("lru_cache" in txt.split("(")[0] or txt.split("(")[0].split(".")[-1] in ("cache", "lru_cache", "memoize")):
+                    memo.append(ast.unparse(node)[:80])
+    out["<module>"] = {"writes": [], "memo": memo}
+    return out
+
+
+def load_frames() -> Dict[str, Dict[str, Dict[str, List[str]]]]:
+    import json
+    p = os.path.join(core.ROOT, "contracts", "frames.json")
+    return json.load(open(p)) if os.path.exists(p) else {}
+
+
+def frames_outcome(mods: List[str]):
+    """('discharged'|'refuted', text, details): every function of the listed modules writes only what its pinned frame allows and
+    carries no memoisation decorator beyond the pinned ones.  New functions are held to the empty frame."""
+    base = load_frames()
+    bad = []
+    n = 0
+    for mod in mods:
+        cur_ = write_profile(mod)
+        b = base.get(mod)
+        if b is None:
+            bad.append(f"{mod}: no pinned frame")
+            continue
+        for q, prof in cur_.items():
+            n += 1
+            allowed = b.get(q, {"writes": [], "memo": []})
+            extra_w = [w for w in prof["writes"] if w not in allowed["writes"]]
+            extra_m = [m_ for m_ in prof["memo"] if m_ not in allowed["memo"]]
+            if extra_w:
+                s_ = repo().summary(f"{mod}:{q}") if q != "<module>" else None
+                wh = ""
+                if s_ is not None:
+                    allf = [f for fs in s_.mutates.values() for f in fs] + s_.global_writes
+                    hit = [f for f in allf if ("param:" + f.target in extra_w) or ("global:" + f.target in extra_w)]
+                    wh = "; ".join(f"{f.where}: {f.what[:110]}" for f in hit[:2])
+                bad.append(f"{mod.split('.')[-1]}:{q} writes {extra_w} outside its frame ({wh})")
+            if extra_m:
+                bad.append(f"{mod.split('.')[-1]}:{q} is memoised ({extra_m}): its result may depend on earlier calls, not only on its arguments")
+    if bad:
+        return "refuted", "; ".join(bad[:6]), bad, n
+    return "discharged", "", [], n
